@@ -74,6 +74,8 @@ fn registry() -> Vec<PartEntry> {
         part!("C08", seq::C08Reserved),
         part!("C09", log::C09Log),
         part!("C10", seq::C10Lifetimes),
+        part!("C11", rt::C11Exec),
+        part!("C12", rt::C12Exec),
         part!("C13", alloc::C13Pool),
         part!("C14", alloc::C14Handles),
         part!("C15", seq::C15Channels),
